@@ -288,3 +288,24 @@ func IsIdentity(p []int) bool {
 	}
 	return true
 }
+
+// AssignVersions turns an anchored history into a two-version one: version 0 and a version with genesis 20 whose
+// maximum operation time deltas differ (one of them tiny, so that a from-only window is open under one version and
+// closed under the other). Each operation is stamped with the version in force at its anchoring time or, one time
+// in four, with the other one (operations are applied under the version of their stamp - the version in force when
+// they were accepted - not under the one their anchoring time falls in).
+func AssignVersions(t *rapid.T, h []*hist.Anchored) []hist.VersionSpec {
+	d := rapid.SampledFrom([][2]uint64{{3, 7207}, {7207, 3}, {3, 600}, {600, 3}}).Draw(t, "versionDeltas")
+	vs := []hist.VersionSpec{{Genesis: 0, MaxTimeDelta: d[0]}, {Genesis: 20, MaxTimeDelta: d[1]}}
+	for _, a := range h {
+		pv := uint64(0)
+		if a.Op.TransactionTime >= 20 {
+			pv = 20
+		}
+		if rapid.IntRange(0, 3).Draw(t, "otherVersion") == 0 {
+			pv = 20 - pv
+		}
+		a.Op.ProtocolVersion = pv
+	}
+	return vs
+}
